@@ -107,13 +107,14 @@ Print Assumptions C13_supercard_faithful.
    on the Buchungsdatum; the account changes by the filled one of Gutschrift / Lastschrift as
    written, in the currency of the "Währung:" line (CHF without one); description =
    Avisierungstext Kategorie Label, each trimmed.  The second component is what the importer has
-   written to standard output besides the journal: the debugging line for d1. *)
-Theorem C13_postfinance_faithful : forall acct kvs header rows d1 ds,
+   written to standard output besides the journal: the debugging line for d1.  dbg = true is
+   the pinned code, dbg = false the code without the debugging statement. *)
+Theorem C13_postfinance_faithful : forall dbg acct kvs header rows d1 ds,
   let cur := pf_header_currency kvs s_CHF in
   acct <> tbd_account ->
   forallb pf_is_kv kvs = true -> pf_is_kv header = false -> valid_name cur = true ->
   forallb pf_wf_row rows = true -> pf_is_row d1 = false -> forallb (fun r => len_is r 1) ds = true ->
-  exists ts, import_postfinance acct (pf_statement kvs header rows d1 ds) = (MOk (map DTxn ts), pf_debug_line d1) /\
+  exists ts, import_postfinance dbg acct (pf_statement kvs header rows d1 ds) = (MOk (map DTxn ts), pf_debug_line dbg d1) /\
     Forall2 (books acct tbd_account) (map (pf_fact cur) rows) ts /\
     map t_desc ts = map pf_text rows.
 Proof. exact postfinance_faithful. Qed.
@@ -121,23 +122,28 @@ Print Assumptions C13_postfinance_faithful.
 
 (* "nothing else is emitted" is false of ch.postfinance (F13): on every well-formed statement the
    standard output starts with a non-empty line that is not part of the journal ... *)
-Theorem C13_postfinance_stdout : forall flag acct items ds out,
-  account_flag flag = AAcc acct -> import_postfinance acct items = (MOk ds, out) ->
-  run_postfinance flag items = mkRun (out ++ print_directives ds) SOk.
+Theorem C13_postfinance_stdout : forall dbg flag acct items ds out,
+  account_flag flag = AAcc acct -> import_postfinance dbg acct items = (MOk ds, out) ->
+  run_postfinance dbg flag items = mkRun (out ++ print_directives ds) SOk.
 Proof. exact run_postfinance_ok. Qed.
 Print Assumptions C13_postfinance_stdout.
 
-Theorem C13_postfinance_debug_line_nonempty : forall r, pf_debug_line r <> [].
+Theorem C13_postfinance_debug_line_nonempty : forall r, pf_debug_line true r <> [].
 Proof. exact pf_debug_line_nonempty. Qed.
 Print Assumptions C13_postfinance_debug_line_nonempty.
+
+(* without the debugging statement nothing but the journal is written *)
+Theorem C13_postfinance_repaired_stdout : forall r, pf_debug_line false r = [].
+Proof. reflexivity. Qed.
+Print Assumptions C13_postfinance_repaired_stdout.
 
 (* ... witness: a statement without rows imports nothing and still prints something *)
 Theorem C13_postfinance_stdout_refuted :
   exists flag acct items,
     account_flag flag = AAcc acct /\
-    fst (import_postfinance acct items) = MOk [] /\
-    ir_status (run_postfinance flag items) = SOk /\
-    ir_stdout (run_postfinance flag items) <> print_directives [].
+    fst (import_postfinance true acct items) = MOk [] /\
+    ir_status (run_postfinance true flag items) = SOk /\
+    ir_stdout (run_postfinance true flag items) <> print_directives [].
 Proof.
   exists w_acct_flag, [s_Assets; [65]%Z], (pf_statement [] [[97]%Z] [] [[68]%Z] []).
   split; [reflexivity|]. exact pf_stdout_witness.
